@@ -400,6 +400,9 @@ func init() {
 			{ID: "C08.R4", Doc: "Clone returns exactly the result of copy() of the receiver / its ego", Run: c08R4},
 			{ID: "C08.R5", Doc: "OWN (package-wide): mutators write only spines of their receiver", Run: func(c *Ctx) { c.R.Floor("C08.R5", ownRule(c, "C08.R5"), 8) }},
 			{ID: "C08.R6", Doc: "scalar wrappers are immutable after construction (= C09.R5): scalar copy() may hand back a value and containers may share wrappers only because nobody writes them", Run: func(c *Ctx) { c09Immutable(c, "C08.R6") }},
+			{ID: "C08.R7", Doc: "the clone Equals the original: the equality leaves the comparison ends in are exact — scalar isEqual is `own type AND payload == payload` (reflexive for every payload, infinities included), container isEqual is own type, length, complete loop (= C07.R1–R3)", Run: func(c *Ctx) {
+				c.R.Floor("C08.R7", runAs(c, "C08.R7", c07Run, nil), 7)
+			}},
 		},
 	})
 }
@@ -447,7 +450,24 @@ func c09Immutable(c *Ctx, rule string) {
 				}
 				n++
 				ob := c.Ob(rule, "wrapper-store/"+a.FuncName(root)+"#"+w.Obj().Name(), st.Pos())
-				if al, isAl := target.(*ssa.Alloc); isAl && al.Parent() == f {
+				fresh := false
+				switch tv := target.(type) {
+				case *ssa.Alloc:
+					fresh = tv.Parent() == f
+				case *ssa.IndexAddr:
+					// atoms carved from one block: atoms := make([]atInt, n); atoms[i].val = v
+					switch base := tv.X.(type) {
+					case *ssa.MakeSlice:
+						fresh = base.Parent() == f
+					case *ssa.Alloc:
+						fresh = base.Parent() == f
+					case *ssa.Slice:
+						if al, ok := base.X.(*ssa.Alloc); ok {
+							fresh = al.Parent() == f
+						}
+					}
+				}
+				if fresh {
 					ob.Ok("stores into the %s allocated in this function (construction)", w.Obj().Name())
 				} else {
 					ob.Fail("a %s that already exists is written: wrappers are shared between a container and the containers derived from it (SubList, Concat, NewListOf, copies of spines), so the write shows in all of them", w.Obj().Name())
